@@ -604,6 +604,52 @@ func TestVerifC18Kernels(t *testing.T) {
 			c18Mismatch(ctx, cs, ks[cs.Idx%len(ks)])
 			ctx.Eval(1)
 		})
+		// the engine's largest dimension (65 536) with saturated int8 operands: the accumulator
+		// must hold 65 536 * 128^2 = 2^30 (exactness clause of the int8 kernel, see the header)
+		var i8ks []c18Kernel
+		for _, k := range ks {
+			if k.kind == "i8dot" {
+				i8ks = append(i8ks, k)
+			}
+		}
+		ctx.Group("int8_max_dim", 5*len(i8ks), func(cs *vkit.Case) {
+			k := i8ks[cs.Idx%len(i8ks)]
+			pat := cs.Idx / len(i8ks)
+			const dim = 65536
+			a, b := make([]int8, dim), make([]int8, dim)
+			for i := range a {
+				switch pat {
+				case 0:
+					a[i], b[i] = 127, 127
+				case 1:
+					a[i], b[i] = -128, -128
+				case 2:
+					a[i], b[i] = 127, -128
+				case 3:
+					a[i], b[i] = -127, 127
+				default:
+					a[i], b[i] = c18I8Value(cs.R, "1e18"), c18I8Value(cs.R, "1e18")
+				}
+			}
+			var ref, refaa int64
+			for i := range a {
+				ref += int64(a[i]) * int64(b[i])
+				refaa += int64(a[i]) * int64(a[i])
+			}
+			cs.Op("kernel %s dim=%d saturated operands, pattern %d", k.name, dim, pat)
+			d1, err1 := k.i8(a, b)
+			d2, err2 := k.i8(b, a)
+			daa, err3 := k.i8(a, a)
+			if err1 != nil || err2 != nil || err3 != nil {
+				cs.Fail("%s dim=%d: error on equal lengths: %v %v %v", k.name, dim, err1, err2, err3)
+			}
+			if int64(d1) != ref || int64(d2) != ref || int64(daa) != refaa {
+				cs.Fail("%s dim=%d saturated operands (pattern %d): int8 dot product must be exact: a.b=%d b.a=%d want %d; a.a=%d want %d", k.name, dim, pat, d1, d2, ref, daa, refaa)
+			}
+			ctx.Count("kernels.evaluations", 3)
+			ctx.Eval(1)
+			ctx.Distinct(fmt.Sprintf("%s/%d/saturated%d", k.name, dim, pat))
+		})
 		if !c18Race {
 			c18QuantGroups(ctx)
 		}
